@@ -237,9 +237,10 @@ def remove(item):
         got = p.remove()
         idx = t.index(n - 1) if n else None
     else:
-        want = T.remove_index(t, index)
+        # a negative index counts from the end, as everywhere in Python (the entry self[index] is removed)
+        idx = index if index >= 0 else n + index
+        want = T.remove_index(t, idx)
         got = p.remove(index)
-        idx = index
     what = f"Perm{t}.remove({'' if index is None else index})"
     f = _cmp(got, want, what)
     if f is not None:
@@ -700,7 +701,8 @@ def run(ctx):
             rule=f"all permutations <= {ins_n} (+ seeded of length {ins_n + 1}) x every index in {{default, 0..n+1}} x every value in {{default, 0..n}}")
     ctx.add_sample("C10.insert", (Perm((2, 0, 1)), 4, 1))
     rem = [(p, i) for p in unary for i in [None] + list(range(len(p)))]
-    ctx.run("C10.remove", rem, chunk=1500, rule=f"all permutations <= {nmax} x every index and the default")
+    ctx.run("C10.remove", rem + [(p, i) for p in unary for i in range(-len(p), 0)], chunk=1500,
+            rule=f"all permutations <= {nmax} x every index (0..n-1 and the negative forms -n..-1) and the default")
     ctx.run("C10.remove_element", rem, chunk=1500, rule=f"all permutations <= {nmax} x every value and the default")
 
     # ---- inflation
